@@ -12,6 +12,7 @@
  * (histories are NOT merged on observable state: the library keeps hidden per-precision statics).
  */
 #include "../common/factor.h"
+#include <fcntl.h>
 
 static const char *PROP = "C08";
 typedef struct { long hist, runs, calls, judged, skipped, viol, deaths, distinct; int samples_left; unsigned long long dh[1 << 16]; char sigs[64][96]; int printed[64]; int nsig; } shared_t;
@@ -65,7 +66,9 @@ typedef struct {
     ldc A[NMAX][NMAX]; ldc Ld[NMAX][NMAX], Ud[NMAX][NMAX];
     int info;
 } hs_t;
-static double U_THRESH = 1.0;
+static double U_THRESH = 1.0; static int TIGHT7, TIGHT8;     /* sp_ienv(7)/(8) overrides of the refact-lwork family */
+static long LW_OVERRIDE; static unsigned char *hs_raw;
+static int hs_redzone_touched(const hs_t *s) { if (!hs_raw) return 0; for (int q = 0; q < 256; q++) if (hs_raw[q] != 0xA5 || hs_raw[256 + s->lwork + q] != 0xA5) return 1; return 0; }
 
 static void set_values(hs_t *s, int v) {
     static tmat_t T; build(s->p, v, &T); tm_to_dense(&T, s->A); s->vcur = v;
@@ -78,7 +81,7 @@ static int op_factor(hs_t *s, int v, int refact, int usepr, int P, char *msg, si
     set_values(s, v);
     for (int i = 0; i < n; i++) old_pr[i] = s->perm_r[i];
     if (!refact) { get_perm_c(1, &s->am.A, s->perm_c); for (int i = 0; i < n; i++) s->perm_r[i] = -7; }
-    vf_ienv[1] = 1 + 3 * (s->p == 2); vf_ienv[2] = 1 + (s->p == 1); vf_ienv[3] = 4; vf_ienv[4] = 200; vf_ienv[5] = 100; vf_ienv[6] = vf_ienv[7] = -50; vf_ienv[8] = -30;
+    vf_ienv[1] = 1 + 3 * (s->p == 2); vf_ienv[2] = 1 + (s->p == 1); vf_ienv[3] = 4; vf_ienv[4] = 200; vf_ienv[5] = 100; vf_ienv[6] = -50; vf_ienv[7] = TIGHT7 ? TIGHT7 : -50; vf_ienv[8] = TIGHT8 ? TIGHT8 : -30;
     StatAlloc(n, P, vf_ienv[1], vf_ienv[2], &Gstat); StatInit(n, P, &Gstat);
     FN(p,gstrf_init)(P, DOFACT, NOTRANS, refact ? YES : NO, vf_ienv[1], vf_ienv[2], U_THRESH, usepr ? YES : NO, 0.0, s->perm_c, s->perm_r, s->work, s->lwork, &s->am.A, &AC, &s->opt, &Gstat);
     s->have_opt = 1;
@@ -86,6 +89,17 @@ static int op_factor(hs_t *s, int v, int refact, int usepr, int P, char *msg, si
     Destroy_CompCol_Permuted(&AC);
     StatFree(&Gstat);
     s->info = (int)info; G->calls++;
+    if (!strcmp(PROP, "C14")) {       /* family refact-lwork: the only trouble is memory; info > n or a correct factorization */
+        G->judged++; const char *wh = refact ? "refactor" : "first"; char sig[96];
+        if (hs_redzone_touched(s)) { snprintf(sig, sizeof sig, "C14:lwork:redzone:%s", wh); viol(sig, cs, "bytes outside the caller's workspace were written"); }
+        if (info > n) { s->have_lu = 0; return 3; }
+        if (info != 0) { s->have_lu = (info > 0 && info <= n); snprintf(sig, sizeof sig, "C14:lwork:bogus-info:%s", wh); viol(sig, cs, "nonsingular values, memory trouble only, but info=%d (n=%d)", (int)info, n); return 3; }
+        s->have_lu = 1; char wm[300]; int wf = wellformed(&s->L, &s->U, s->perm_r, s->perm_c, n, s->Ld, s->Ud, wm, sizeof wm);
+        if (wf) { snprintf(sig, sizeof sig, "C14:lwork:malformed-factors:%s", wh); viol(sig, cs, "info=0 but the returned factors are malformed: %s", wm); return 3; }
+        ldc M[NMAX][NMAX]; ld ratio; char m2[400]; permuted_A(s->A, n, s->perm_r, s->perm_c, M);
+        if (check_lu_residual(M, s->Ld, s->Ud, n, &ratio, m2, sizeof m2)) { snprintf(sig, sizeof sig, "C14:lwork:wrong-factors:%s", wh); viol(sig, cs, "info=0 but Pr A Pc != L U: %s", m2); }
+        return 0;
+    }
     if (info != 0) { s->have_lu = (info > 0 && info <= n); snprintf(msg, ml, "info=%d", (int)info); return 1; }
     s->have_lu = 1;
     char wm[300];
@@ -149,12 +163,14 @@ static void op_destroy(hs_t *s) {
     /* the ordering arrays belong to the factorization that is being given up (p?gstrf_init allocates new ones for the next first factorization) */
     if (s->have_opt) { SUPERLU_FREE(s->opt.etree); SUPERLU_FREE(s->opt.colcnt_h); SUPERLU_FREE(s->opt.part_super_h); s->have_opt = 0; }
 }
-static void hs_begin(hs_t *s, int p, int mem) { memset(s, 0, sizeof *s); s->p = p; s->n = pat_n(p); s->mem = mem; s->lwork = mem ? 400000 : 0; s->work = mem ? malloc(s->lwork) : NULL; unsetenv("SuperLU_DYNAMIC_SNODE_STORE"); }
+static void hs_begin(hs_t *s, int p, int mem) { memset(s, 0, sizeof *s); s->p = p; s->n = pat_n(p); s->mem = mem; s->lwork = mem ? (LW_OVERRIDE ? LW_OVERRIDE : 400000) : 0;
+    if (mem) { hs_raw = malloc(s->lwork + 512); memset(hs_raw, 0xA5, s->lwork + 512); s->work = hs_raw + 256; } else { hs_raw = NULL; s->work = NULL; }
+    unsetenv("SuperLU_DYNAMIC_SNODE_STORE"); }
 static void hs_end(hs_t *s) {
     op_destroy(s);
     if (s->have_opt) { SUPERLU_FREE(s->opt.etree); SUPERLU_FREE(s->opt.colcnt_h); SUPERLU_FREE(s->opt.part_super_h); s->have_opt = 0; }
     if (s->have_am) { am_free(&s->am); s->have_am = 0; }
-    free(s->work); s->work = NULL;
+    free(hs_raw); hs_raw = NULL; s->work = NULL;
 }
 
 /* ------------------------------------------------------------------ alphabet, validity, execution of one history */
@@ -187,7 +203,7 @@ static unsigned long long run_history(int p, int mem, const op_t *ops, int nops,
         else if (o->kind == 'S') h = hmix(h, op_solve(&s, o->trans, k, cs));
         else op_destroy(&s);
         if (rc == 1) { if (!strcmp(PROP, "C08")) { char sig[64]; snprintf(sig, sizeof sig, "C08:info:%s", o->kind == 'F' ? "first" : "refactor"); viol(sig, cs, "op %d (%c, values %d): nonsingular values but %s", k, o->kind, o->v, msg); } *failed_at = k; break; }
-        if (rc == 2) { *failed_at = k; break; }
+        if (rc == 2 || rc == 3) { *failed_at = k; break; }
         if (s.have_lu && (o->kind == 'F' || o->kind == 'R')) { h = hmix(h, lu_checksum(&s)); h = hmix(h, s.opt.usepr); }
         /* C17: repeated refactorizations and solves must not grow the set of live blocks */
         if (!strcmp(PROP, "C17")) {
@@ -236,6 +252,8 @@ static long count_or_run(int depth, int live, op_t *cur, int len, long *idx, lon
             if (!strcmp(PROP, "C18")) {
                 unsigned long long hp; unsigned long long hh = run_history(P_, MEM_, cur, len, cs, &fa); note_distinct(hmix(hh, *idx)); hp = run_probe(P_, MEM_); G->judged++;
                 if (hp != PROBE_REF[MEM_]) { char sig[64]; snprintf(sig, sizeof sig, "C18:probe-differs:after-%c:mem%d", cur[len - 1].kind, MEM_); viol(sig, cs, "probe (first factorization + 2 solves) after this history is not bit-identical to the same probe in a fresh process"); }
+                /* the probe in the OTHER memory mode too (added after seeded change C18/3 was missed): a mode flag left behind by the history must not reach it */
+                { unsigned long long hx = run_probe(P_, 1 - MEM_); G->judged++; if (hx != PROBE_REF[1 - MEM_]) { char sig[64]; snprintf(sig, sizeof sig, "C18:probe-differs:other-mode:after-%c:mem%d", cur[len - 1].kind, MEM_); viol(sig, cs, "probe with %s workspace after this history (run with %s workspace) is not bit-identical to the same probe in a fresh process", MEM_ ? "internal" : "user", MEM_ ? "user" : "internal"); } }
             } else {
                 unsigned long long h = run_history(P_, MEM_, cur, len, cs, &fa);
                 unsigned long long h2 = hmix(h, *idx); note_distinct(h2);
@@ -270,11 +288,54 @@ int main(int argc, char **argv) {
     PROP = arg_str(argc, argv, "--prop", "C08");
     U_THRESH = atof(arg_str(argc, argv, "--u", "1.0"));
     const char *one = arg_str(argc, argv, "--one", NULL);
-    if (one) { op_t ops[16]; int p = 0, mem = 0; const char *q; if ((q = strstr(one, "pat="))) p = atoi(q + 4); if ((q = strstr(one, "mem="))) mem = atoi(q + 4); int n = parse_ops(one, ops), fa;
+    if (one) { op_t ops[16]; int p = 0, mem = 0; const char *q; if ((q = strstr(one, "pat="))) p = atoi(q + 4); if ((q = strstr(one, "mem="))) mem = atoi(q + 4); if ((q = strstr(one, "lwork="))) LW_OVERRIDE = atol(q + 6); if ((q = strstr(one, "f7="))) TIGHT7 = atoi(q + 3); if ((q = strstr(one, "f8="))) TIGHT8 = atoi(q + 3); int n = parse_ops(one, ops), fa;
         if (!strcmp(PROP, "C18")) { pid_t pid = fork(); if (pid == 0) { PROBE_REF[mem] = run_probe(p, mem); *(unsigned long long *)vf_sh->note = PROBE_REF[mem]; _exit(0); } int st; waitpid(pid, &st, 0); unsigned long long ref = *(unsigned long long *)vf_sh->note;
             run_history(p, mem, ops, n, one, &fa); if (run_probe(p, mem) != ref) viol("C18:probe-differs", one, "probe differs from the fresh-process probe"); }
         else run_history(p, mem, ops, n, one, &fa);
         out_stats(PROP, "\"runs\":1,\"violations\":%ld", G->viol); return G->viol ? 1 : 0; }
+    if ((LW_OVERRIDE = atol(arg_str(argc, argv, "--lwork", "0"))) < 0) LW_OVERRIDE = 0;
+    if (arg_int(argc, argv, "--lwsweep", 0)) {
+        /* C14 family refact-lwork (added after seeded change C14/3 was missed): a first factorization with ONE thread into a user workspace of every size
+           (steps of 8 bytes up to 1.15 x the smallest size that lets the whole history succeed), then a re-factorization in the same workspace with 2-3
+           threads and new values; each (history, size) in a forked child */
+        PROP = "C14"; P_ = arg_int(argc, argv, "--pat", 0); MEM_ = 1; int isl = 0, nsl = 1; sscanf(arg_str(argc, argv, "--slice", "0/1"), "%d/%d", &isl, &nsl);
+        double deadline = atof(arg_str(argc, argv, "--deadline", "1e9")), t0 = now_s(); int step = arg_int(argc, argv, "--step", 8); int tight = arg_int(argc, argv, "--tight", 0);
+        static const char *HS[6] = { "F0a,R1nb", "F0a,R1yb", "F1a,R0nc", "F0a,R0yc", "F1a,R4yb,R0nc", "F0b,R1na" };
+        long runs = 0, memfail = 0, ok = 0, deaths = 0; int complete = 1; long idx = 0;
+        for (int h = 0; h < 6; h++) {
+            op_t ops[8]; char cs0[64]; snprintf(cs0, sizeof cs0, "pat=%d mem=1 ops=%s", P_, HS[h]); int nops = parse_ops(cs0, ops);
+            /* smallest sufficient size by doubling */
+            long top = 2048; for (;; top *= 2) { fflush(NULL); pid_t pid = fork(); if (pid == 0) { const char *sv = PROP; PROP = "none"; LW_OVERRIDE = top; int fa; run_history(P_, 1, ops, nops, cs0, &fa); PROP = sv; _exit(fa < 0 ? 0 : 1); } int st; waitpid(pid, &st, 0); if ((WIFEXITED(st) && WEXITSTATUS(st) == 0) || top > (1L << 24)) break; }
+            top = top + top / 8;
+            /* tight estimates: the smallest sp_ienv(7) and sp_ienv(8) with which the whole history still succeeds in a large workspace; with the default
+               estimates (50 x nnz) an overlap of work arrays and L/U storage only hits unused storage and stays invisible */
+            if (tight) { int m7 = 0, m8 = 0;
+                for (int which = 0; which < 2; which++) for (int f = 1; f <= 120; f++) { fflush(NULL); pid_t pid = fork();
+                    if (pid == 0) { int fd = open("/dev/null", O_WRONLY); if (fd >= 0) dup2(fd, 2); const char *sv = PROP; PROP = "none"; LW_OVERRIDE = 1L << 20; TIGHT7 = which == 0 ? f : m7; TIGHT8 = which == 1 ? f : 0; int fa; run_history(P_, 1, ops, nops, cs0, &fa); PROP = sv; _exit(fa < 0 ? 0 : 1); }
+                    int st; waitpid(pid, &st, 0); if (WIFEXITED(st) && WEXITSTATUS(st) == 0) { if (which == 0) m7 = f; else m8 = f; break; } }
+                TIGHT7 = m7; TIGHT8 = m8;
+                if (m7 && m8) { top = 2048; for (;; top *= 2) { fflush(NULL); pid_t pid = fork(); if (pid == 0) { const char *sv = PROP; PROP = "none"; LW_OVERRIDE = top; int fa; run_history(P_, 1, ops, nops, cs0, &fa); PROP = sv; _exit(fa < 0 ? 0 : 1); } int st; waitpid(pid, &st, 0); if ((WIFEXITED(st) && WEXITSTATUS(st) == 0) || top > (1L << 24)) break; } top = top + top / 8; }
+            }
+            for (long lw = 64; lw <= top; lw += step, idx++) {
+                if (idx % nsl != isl) continue;
+                if (now_s() - t0 > deadline) { complete = 0; break; }
+                char cs[160]; snprintf(cs, sizeof cs, "pat=%d mem=1 lwork=%ld f7=%d f8=%d ops=%s", P_, lw, TIGHT7, TIGHT8, HS[h]);
+                fflush(NULL); vf_sh->where[0] = 0; pid_t pid = fork();
+                if (pid == 0) { vf_install_fault_handlers(); vf_case_timer2(20, 120); LW_OVERRIDE = lw; int fa; snprintf((char *)vf_sh->note, sizeof vf_sh->note, "%s", cs); run_history(P_, 1, ops, nops, cs, &fa); fflush(NULL); _exit(fa < 0 ? 0 : 10); }
+                int st = 0; waitpid(pid, &st, 0); vf_last_child = pid; runs++;
+                if (WIFEXITED(st) && WEXITSTATUS(st) == 0) ok++;
+                else if (WIFEXITED(st) && WEXITSTATUS(st) == 10) memfail++;
+                else { int kind, code; if (WIFSIGNALED(st)) { kind = VF_SIGNAL; code = WTERMSIG(st); } else if (WEXITSTATUS(st) == 99) { kind = VF_ASAN; code = 99; } else if (WEXITSTATUS(st) == 97) { kind = VF_TIMEOUT; code = 97; } else if (WEXITSTATUS(st) == 98) { kind = VF_FAULT; code = 98; } else { kind = VF_EXIT; code = WEXITSTATUS(st); }
+                    char cd[160], sig[220]; vf_crash_desc(kind, code, cd, sizeof cd); const char *site = strchr(cd, '@');
+                    if (kind == VF_EXIT && (code == 1 || code == 255)) { memfail++; continue; }        /* the library's abort path (diagnostic on stderr) */
+                    snprintf(sig, sizeof sig, "C14:lwork:crash:%s", site ? site : cd); deaths++; G->deaths++; viol(sig, cs, "memory error instead of info > n or the abort path (%s)", cd); }
+                note_distinct(hmix(hmix((unsigned long long)lw, (unsigned long long)h * 131 + (unsigned long long)P_), (unsigned long long)st));
+            }
+        }
+        out_stats(PROP, "\"family\":\"refact-lwork\",\"pat\":%d,\"slice\":\"%d/%d\",\"complete\":%s,\"runs\":%ld,\"judged\":%ld,\"violations\":%ld,\"distinct_outcomes\":%ld,\"successes\":%ld,\"returns_info_gt_n\":%ld,\"crashes\":%ld,\"wall_s\":%.2f",
+                  P_, isl, nsl, complete ? "true" : "false", runs, runs, G->viol, G->distinct, ok, memfail, deaths, now_s() - t0);
+        return 0;
+    }
     P_ = arg_int(argc, argv, "--pat", 0); MEM_ = arg_int(argc, argv, "--mem", 0); DEPTH_ = arg_int(argc, argv, "--depth", 3); FULL_ = !strcmp(arg_str(argc, argv, "--grid", "quick"), "full");
     int isl = 0, nsl = 1; sscanf(arg_str(argc, argv, "--slice", "0/1"), "%d/%d", &isl, &nsl);
     double deadline = atof(arg_str(argc, argv, "--deadline", "1e9")), t0 = now_s(); int timeout = arg_int(argc, argv, "--timeout", 30);
@@ -309,6 +370,7 @@ int main(int argc, char **argv) {
         for (int ev = 0; ev < 4; ev++) for (int rep = 1; rep <= 2; rep++) {
             fflush(NULL); pid_t pid = fork();
             if (pid == 0) { vf_install_fault_handlers(); for (int k = 0; k < rep; k++) extra_event(ev, P_); unsigned long long hp = run_probe(P_, MEM_); G->judged++; G->runs++;
+                { unsigned long long hx = run_probe(P_, 1 - MEM_); if (hx != PROBE_REF[1 - MEM_]) { char cs2[64], sig2[64]; snprintf(cs2, sizeof cs2, "pat=%d mem=%d extra=%d x%d", P_, MEM_, ev, rep); snprintf(sig2, sizeof sig2, "C18:probe-differs:other-mode:after-extra%d:mem%d", ev, MEM_); viol(sig2, cs2, "probe in the other memory mode after the extra event differs from the fresh-process probe"); } }
                 if (hp != PROBE_REF[MEM_]) { char cs[64], sig[64]; snprintf(cs, sizeof cs, "pat=%d mem=%d extra=%d x%d", P_, MEM_, ev, rep); snprintf(sig, sizeof sig, "C18:probe-differs:after-extra%d:mem%d", ev, MEM_); viol(sig, cs, "probe after %d x extra event %d (0 singular call, 1 failed allocation, 2 expert driver, 3 other size) differs from the fresh-process probe", rep, ev); }
                 fflush(NULL); _exit(0); }
             int st; waitpid(pid, &st, 0);
